@@ -7,6 +7,8 @@ Spec values are tagged records {"k": kind, "nd": depth, "v": value}:
   exact    compared for equality after converting numpy types to Python
   none     the library must return None
   oneof    v is a list of acceptable exact values
+  zsign    leaves are -1 / 1 (sign of a defined number), 2 (NaN) or 3 (open); zsign_p: the
+           p-value of such a number (NaN / within [0, 1])
 """
 import math
 
@@ -111,6 +113,19 @@ def _leaf_ok(kind, x, e, scale=None):
         if not isinstance(x, (int, float)) or (isinstance(x, float) and math.isnan(x)):
             return False
         return abs(x - want) <= 1e-9
+    if kind in ("zsign", "zsign_p"):
+        # huge tables (Derived!ZSignD): -1 / 1 sign of a defined z-score, 2 NaN, 3 open
+        if e == 3:
+            return True
+        if not isinstance(x, (int, float)) or isinstance(x, bool):
+            return False
+        if e == 2:
+            return isinstance(x, float) and math.isnan(x)
+        if math.isnan(x) or math.isinf(x):
+            return False
+        if kind == "zsign_p":
+            return 0.0 <= x <= 1.0
+        return ((x > 0) - (x < 0)) == e
     if kind == "tail_normal":
         # e = [sign, z2]; expected p-value 2(1 - Phi(|z|)) = erfc(|z| / sqrt 2)
         n, d = e[1]
